@@ -749,9 +749,14 @@ class CSSStyleSheet(cssutils.stylesheets.StyleSheet):
                             index = len(self._cssRules) - i
                             break
                 else:
-                    # find first point to insert
+                    # find first point to insert, never before @charset/@import
+                    start = 0
                     for i, r in enumerate(self._cssRules):
-                        if r.type in (
+                        if r.type in (r.CHARSET_RULE, r.IMPORT_RULE):
+                            start = i + 1
+                    index = len(self._cssRules)
+                    for i, r in enumerate(self._cssRules):
+                        if i >= start and r.type in (
                             r.VARIABLES_RULE,
                             r.MEDIA_RULE,
                             r.PAGE_RULE,
@@ -808,9 +813,18 @@ class CSSStyleSheet(cssutils.stylesheets.StyleSheet):
                             index = len(self._cssRules) - i
                             break
                 else:
-                    # find first point to insert
+                    # find first point to insert, never before @charset/@import/@namespace
+                    start = 0
                     for i, r in enumerate(self._cssRules):
                         if r.type in (
+                            r.CHARSET_RULE,
+                            r.IMPORT_RULE,
+                            r.NAMESPACE_RULE,
+                        ):
+                            start = i + 1
+                    index = len(self._cssRules)
+                    for i, r in enumerate(self._cssRules):
+                        if i >= start and r.type in (
                             r.MEDIA_RULE,
                             r.PAGE_RULE,
                             r.STYLE_RULE,
